@@ -3,7 +3,7 @@
     output rows of a stateless chain is the sequential result, and per-worker sorted runs merge to
     the sorted input. *)
 From Coq Require Import List Arith Bool Lia Permutation Sorted ZArith.
-From GV Require Import Par.Merge Par.Morsel Par.Push Par.Sched Par.ProofsHeap Par.ProofsMerge Par.ProofsPush.
+From GV Require Import Par.Merge Par.Morsel Par.Push Par.Sched Par.ProofsHeap Par.ProofsMerge Par.ProofsPush Par.ProofsChain Par.ProofsDistinct.
 Import ListNotations.
 Local Open Scope nat_scope.
 
@@ -207,6 +207,60 @@ Section SchedProofs.
     rewrite <- (stateless_concat ks H), Hcov. reflexivity.
   Qed.
 
+  (** *** chains without any LIMIT (filters, projections, DISTINCTs, sorts in any order): a worker
+      computes the sequential chain on the rows of its own morsels, whatever the chunk size *)
+  Definition no_limit (ks : list opk) : bool := forallb (fun k => negb (is_limit k)) ks.
+
+  Lemma push_no_limit_true : forall (k : opk) s c, is_limit k = false -> snd (push keq k s c) = true.
+  Proof.
+    intros k s c H. destruct k; try discriminate; cbn [Push.push snd]; try reflexivity.
+    destruct (fresh keq key (s_seen s) c). reflexivity.
+  Qed.
+
+  Lemma push_through_no_limit : forall (ks : list opk), no_limit ks = true -> forall ss c,
+    snd (push_through keq ks ss c) = true.
+  Proof.
+    induction ks as [|k ks IH]; intros H ss c; [reflexivity|].
+    unfold no_limit in H. cbn [forallb] in H. apply andb_true_iff in H. destruct H as [H1 H2].
+    apply negb_true_iff in H1. cbn [push_through].
+    pose proof (push_no_limit_true k (hd_st ss) c H1) as P.
+    destruct (push keq k (hd_st ss) c) as [[s' out] cont]. cbn [snd] in P. subst cont.
+    destruct ks as [|k2 ks']; [reflexivity|]. cbn [negb orb].
+    destruct out as [|o1 ot]; [reflexivity|].
+    specialize (IH H2 (tl ss) (concat (o1 :: ot))).
+    destruct (push_through keq (k2 :: ks') (tl ss) (concat (o1 :: ot))) as [[ss' o] c']. cbn [snd] in *. exact IH.
+  Qed.
+
+  Lemma push_all_drive_chain : forall (ks : list opk), no_limit ks = true -> forall cs ss,
+    push_all keq ks ss cs = drive_chain keq ks ss cs.
+  Proof.
+    intros ks H. induction cs as [|c r IH]; intro ss; [reflexivity|].
+    cbn [push_all drive_chain]. pose proof (push_through_no_limit ks H ss c) as P.
+    destruct (push_through keq ks ss c) as [[ss' o] cont]. cbn [snd] in P. subst cont. rewrite IH. reflexivity.
+  Qed.
+
+  Lemma no_limit_inner : forall (ks : list opk), no_limit ks = true -> no_inner_limit ks = true.
+  Proof.
+    induction ks as [|k ks IH]; intro H; [reflexivity|].
+    unfold no_limit in H. cbn [forallb] in H. apply andb_true_iff in H. destruct H as [H1 H2].
+    destruct ks as [|k2 ks']; [reflexivity|].
+    change (Push.no_inner_limit (k :: k2 :: ks')) with (negb (is_limit k) && Push.no_inner_limit (k2 :: ks')).
+    rewrite H1. apply IH. exact H2.
+  Qed.
+
+  Theorem worker_run_spec_l : forall (ks : list opk), forallb (fun k => negb (is_limit k)) ks = true ->
+    forall csize (rows : list R) ms mine, 0 < csize ->
+    concat (worker_run keq ks csize rows ms mine)
+    = Push.chain_spec keq ks (concat (map (fun i => slice rows (nth i ms dummy_morsel)) mine)).
+  Proof.
+    intros ks H csize rows ms mine Hc. unfold worker_run.
+    set (cs := concat (map (fun i => morsel_chunks csize rows (nth i ms dummy_morsel)) mine)).
+    rewrite (push_all_drive_chain ks H).
+    pose proof (chain_no_inner_limit_l keq ks (no_limit_inner ks H) cs) as P. unfold run_chain in P.
+    destruct (drive_chain keq ks (init_chain ks) cs) as [ss o]. rewrite P. unfold cs.
+    rewrite worker_rows by exact Hc. reflexivity.
+  Qed.
+
   (** *** per-worker sort, then the k-way merge of the workers' runs *)
   Variable cmp : R -> R -> comparison.
   Variable P : R -> Prop.
@@ -273,3 +327,22 @@ Section SchedProofs.
     split; [exact S1|]. eapply perm_trans; eauto.
   Qed.
 End SchedProofs.
+
+(** *** per-worker DISTINCT, then the distinct merge: the sequential DISTINCT as a set, for any schedule *)
+Theorem schedule_distinct_l : forall {R : Type} (req : R -> R -> bool),
+  (forall a b, req a b = true <-> a = b) ->
+  forall csize (rows : list R) ms sch, 0 < csize ->
+  concat (map (slice rows) ms) = rows -> valid_schedule (length ms) sch ->
+  Permutation (dedup req (fun r => r) [] (concat (parallel_run req [ODistinct (fun r : R => r)] csize rows ms sch)))
+              (dedup req (fun r => r) [] rows).
+Proof.
+  intros R req Hreq csize rows ms sch Hc Hcov Hv. unfold parallel_run.
+  rewrite concat_concat', map_map.
+  rewrite (map_ext _ (fun w => dedup req (fun r => r) [] (concat (map (fun i => slice rows (nth i ms dummy_morsel)) w)))).
+  2:{ intro w. rewrite (worker_run_spec_l req [ODistinct (fun r : R => r)] eq_refl csize rows ms w Hc). reflexivity. }
+  rewrite <- (map_map (fun w => concat (map (fun i => slice rows (nth i ms dummy_morsel)) w)) (dedup req (fun r => r) [])).
+  apply (distinct_schedule_independent_l req Hreq).
+  eapply perm_trans; [apply (schedule_perm_l (fun i => slice rows (nth i ms dummy_morsel)) (length ms) sch Hv)|].
+  rewrite <- (map_map (fun i => nth i ms dummy_morsel) (slice rows)).
+  rewrite map_nth_seq_m, Hcov. reflexivity.
+Qed.
